@@ -3,6 +3,7 @@ import PqlModel.Props.C08Full
 import PqlModel.Props.C10Linecol
 import PqlModel.Props.C10Failed
 import PqlModel.Props.C10Extent
+import PqlModel.Props.C10Compile
 #print axioms Pql.C10.C10_union_lists_every_field
 #print axioms Pql.C10.C10_model_matches_span_table
 #print axioms Pql.C10.C10_unions_contains
@@ -32,3 +33,9 @@ import PqlModel.Props.C10Extent
 #print axioms Pql.C10.C10_span_extent_deep
 #print axioms Pql.C10.C10_span_tabular_ops
 #print axioms Pql.C10.C10_span_extent_untidy_false
+#print axioms Pql.Glue.C10_implicit_name_is_source_text
+#print axioms Pql.Glue.C10_expr_span_is_source_text
+#print axioms Pql.Glue.C10_compile_error_linecol
+#print axioms Pql.Glue.errSpanOK_linecol
+#print axioms Pql.Glue.C10_implicit_name_needs_parse
+#print axioms Pql.Glue.C10_compile_error_needs_error_free
